@@ -41,6 +41,91 @@ CLAIMED = {
     text="All 65536 words x 4 origins: the disassembled text must reassemble to exactly the word; '.fill' exactly for words below x0200 and non-canonical words; aliases printed by name.",
     note="Uses the library's parser and assembler for the way back (that is the property); canonicity from the independent decoder.",
     ref="4/C07"),
+ "C08": dict(
+    technique="differential (lock-step) property-based testing of Simulator::step_in against an independent reference LC-3 machine",
+    text="Random machine states with instruction windows aimed at the protection and page boundaries (all flag combinations except strict, scheduled vectored interrupts, keyboard/display, extra internal-register mappings) and generated user programs on the real OS are stepped in lock step with a from-scratch reference machine; after every step result kind, all registers, PC, PSR, saved SP, counters, frames, devices and touched memory are compared, full memory at the end. Every opcode x outcome, trap/RTI/interrupt/exception-entry class is essential.",
+    note="The reference machine (harness/src/model/cpu.rs) with its pinned interpretations R1-R11 is the trusted base; entries whose stack pushes hit a memory-mapped internal register are outside the modelled domain (counted inconclusive).",
+    ref="3.2, 4/C08"),
+ "C09": dict(
+    technique="adversarial property-based testing with an invariant oracle (snapshot/diff of everything outside user space) and observer cross-check",
+    text="User-mode states whose every addressing mode is aimed at boundary and I/O addresses; operand addresses are computed from the decoded word and a register snapshot; a rejected access must be an access/privilege violation with nothing changed (virtual) or a clean vectoring with only the two supervisor-stack words written (real); legal user steps must leave supervisor memory, the I/O page and both devices bit-identical.",
+    note="Operand computation is a 20-line function independent of the simulator and of the reference machine.",
+    ref="4/C09"),
+ "C10": dict(
+    technique="bounded-exhaustive schedule enumeration + random schedules with entry-invariant and transparency (metamorphic) oracles",
+    text="Every single interrupt placement (and all/sampled pairs) over the step boundaries of short generated programs, random schedules with keyboard and seeded timer interrupts on longer ones; entry checks (pending, priority strictly higher, highest pending, saved PC = next instruction, saved PSR, user SP saved) and equality of final registers, PSR, user memory and output with the uninterrupted run.",
+    note="Interrupt sources are harness devices (level-held); handlers are generated save/restore routines; timing = step boundaries because devices are polled once per step.",
+    ref="4/C10, 6"),
+ "C11": dict(
+    technique="property-based testing against a contract model of the six OS traps",
+    text="One trap per case with random registers, condition codes, keyboard queue and strings (empty, odd packed length, bytes x01-xFF, ending at xFDFF), real and virtual traps: exact display bytes, exactly one input byte consumed, all other registers, PSR and user memory unchanged, PC after the TRAP; HALT stops the machine.",
+    note="Contract written from the trap documentation (not from os.asm).",
+    ref="4/C11"),
+ "C12": dict(
+    technique="differential property-based testing: the same generated program under virtual and real traps",
+    text="Generated user programs ending in HALT or in one of six injected faults run under both settings from identical machines: halting programs give equal display, R0-R5 and user memory; faulting programs give the matching error (virtual) and the OS message after the same output, then halt (real).",
+    note="Expected OS messages are the documented strings.",
+    ref="4/C12"),
+ "C13": dict(
+    technique="model-based testing of the run-style API against a reference loop driven only by step_in (twin simulators)",
+    text="Random scripts of run/run_with_limit/run_while/step_over/step_out/step_in with breakpoint sets and an MCR-clearing tripwire; a twin simulator is driven by a reference loop implementing the documented stop conditions; states, counters and pause reasons must agree after every call, and the segmented execution must end like one unbroken run.",
+    note="The twin uses the simulator's own step_in (C08 checks that); MCR clear accepts zero or one more instruction.",
+    ref="4/C13"),
+ "C14": dict(
+    technique="metamorphic twin-run property testing (strict on/off from identical states)",
+    text="Two simulators built from one generated state (uninitialised registers, .blkw block, jumps into OS memory and the I/O page) differ only in the strict flag and are stepped together; unless strict reports a Strict* error, results and complete states must be equal; on fully initialised machines a Strict* error is a violation.",
+    note="Compares values (not initialisation masks) of all 65536 words after every step.",
+    ref="4/C14"),
+ "C15": dict(
+    technique="property-based testing of Word arithmetic through a cfg-guarded hook, oracle = concretisation of uninitialised bits",
+    text="Operand pairs with structured and random initialisation masks; 11 operations x 68 concretisations of the uninitialised bits: every bit reported initialised must be constant; fully initialised operands give the fully initialised wrapping value.",
+    note="Needs the hook Word::verif_parts/verif_from_parts (MANIFEST.hooks).",
+    ref="4/C15"),
+ "C16": dict(
+    technique="fuzzing of simulator states and API call mixes with a no-panic oracle (proptest-driven; libFuzzer in the thorough tier)",
+    text="Seeded full-memory machines with all flag combinations (incl. strict, real traps), PC on every page boundary and xFFFF, devices and internal-register mappings, then mixes of step_in/run_with_limit/step_over/step_out/run and prefetch_pc under catch_unwind.",
+    note="Built with overflow checks on; a harness fuse device ends runaway runs with an external interrupt.",
+    ref="4/C16"),
+ "C27": dict(
+    technique="differential (lock-step) property-based testing of the frame stack against the reference machine's frame model",
+    text="Generated programs with nested JSR/JSRR, traps, top-level returns, interrupts and registered signatures (plus raw states) in lock step: depth (saturating) and, with debug frames, every frame's caller, callee, kind, frame pointer and argument values.",
+    note="Frame model in harness/src/model/cpu.rs.",
+    ref="4/C27"),
+ "C28": dict(
+    technique="differential (lock-step) property-based testing of the access observer against the reference machine's access sets",
+    text="Per step READ and WRITTEN sets on non-I/O addresses must equal the reference machine's; changed writes must be MODIFIED; MODIFIED is a subset of WRITTEN; untracked host accesses leave no trace.",
+    note="MODIFIED is checked as the property states it (changed => modified => written), because the simulator also counts a change of initialisation state as modification.",
+    ref="4/C28"),
+ "C29": dict(
+    technique="property-based testing with a full before/after memory diff (values and init masks through the hook)",
+    text="Generated object files loaded into fresh and used machines of every initialisation strategy: fresh machine holds the OS image and an initialised zero I/O page; loading sets exactly the file's words, clears the init mask of reserved words and changes nothing else, registers and PC included.",
+    note="Expected image from the independent assembler model; OS image from the library's own OS object file.",
+    ref="4/C29"),
+ "C30": dict(
+    technique="stateful property-based testing (random operation histories) with a fresh-simulator oracle",
+    text="Histories of runs, steps, writes, flag flips, breakpoint edits, device attach/remove and internal-register mappings followed by reset: state equals Simulator::new(same flags) word for word (values and masks), configuration (flags, breakpoints, MCR Arc, mappings, devices) is kept.",
+    note="Deterministic strategies only (Known, Seeded), as the property states.",
+    ref="4/C30"),
+ "C31": dict(
+    technique="property-based twin-run testing (two independently built simulators per configuration) plus a Known-fill invariant",
+    text="Same program, seed and seeded timer on two simulators: per-step traces (PC, PSR, registers, counts, digest of all memory incl. init masks every 64 steps, output) must be identical; Known{v} fills every register and every word outside OS image and I/O page with v.",
+    note="OS image addresses are recognised as words that do not depend on the fill value.",
+    ref="4/C31"),
+ "C32": dict(
+    technique="model-based stateful testing (bounded-exhaustive + random operation sequences) against a port-table model with recording devices",
+    text="All sequences up to length 3/4 over a 15-op alphabet and random sequences up to 25 ops over add/remove/set_keyboard/set_display/mmap/munmap/read/write; dispatch order, add success condition, id allocation, port freeing, memory mirror and the complete device call log must equal the model.",
+    note="Recording devices implement ExternalDevice in the harness.",
+    ref="4/C32"),
+ "C33": dict(
+    technique="bounded-exhaustive and random schedule enumeration with the lock schedule owned by the checking thread",
+    text="The harness holds the keyboard/display buffer lock during chosen steps of echo programs (all single and pairs of single-step holds for short inputs, random multi-step holds for long ones); every input byte must be received and every output byte displayed exactly once, in order. Holds covering the data access right after a ready poll are a listed known finding and excluded while listed.",
+    note="Known finding C33/hold-on-data-access-after-ready-poll; real thread interleavings inside one try_write are not explored (they cannot change a try_* outcome beyond success/failure).",
+    ref="4/C33, 6"),
+ "C34": dict(
+    technique="property-based testing of TimerDevice poll sequences against interval arithmetic, directly and inside a simulator",
+    text="Exact counts and ranges, seeds, enable/disable toggles and resets over long poll sequences: gaps within the range, first fire at most max+1 polls after enable/reset, disabled never fires, equal seeds equal sequences; one poll per simulator step (recording wrapper).",
+    note="Ranges containing 0 are outside the property's domain.",
+    ref="4/C34"),
  "C17": dict(
     technique="property-based round trip serialize->deserialize over generated and linked object files (binary format)",
     text="Object files assembled with/without debug symbols from generated programs (externals anywhere, .blkw, several/empty blocks, arbitrary source text) and links of 2-3 files are written with BinaryFormat and read back; the result must equal the original under the type's own PartialEq (image, labels, flags, relocation entries, line map, source).",
